@@ -2,7 +2,7 @@
    (faithful models in PathJoinModel.v) against the C++17 path operations (PathJoinSpec.v).
    Argument strings are lists of non-zero bytes (`nonul`); NULL arguments are `None`. *)
 From Coq Require Import ZArith List Bool.
-From Zix Require Import PathJoinSpec PathJoinModel PathJoinProofs.
+From Zix Require Import PathJoinSpec PathJoinModel PathJoinProofs PathJoinProofsRel.
 Import ListNotations.
 Local Open Scope Z_scope.
 
@@ -51,11 +51,58 @@ Example join_example :
   join_text None (Some [98]) = Ok [98] /\ join_text (Some [97;47]) None = Ok [97;47].
 Proof. vm_compute. repeat split. Qed.
 
-(* ---- lexically_relative: the three repaired witnesses, on the faithful model:
-   'a/' vs 'a/.' = ".", "" vs "a" = "..", '//' vs '/a' = ".." *)
+(* ---- lexically_relative, full statements (no class excluded: the three defects found on the way
+   were repaired in /repo by fix: commits fa9d91b, 2a6eff1, 769f60e and the model follows that code) *)
+
+(* NULL exactly when C++17 lexically_relative yields the empty path *)
+Theorem relative_null_iff :
+  forall p base : str, nonul p -> nonul base ->
+    exists r, relative_text p base = Ok r /\ (r = None <-> std_relative p base = None).
+Proof. exact relative_null_iff_ok. Qed.
+Print Assumptions relative_null_iff.
+
+(* otherwise the result names the same relative path (same root flag, same elements) *)
+Theorem relative_equiv :
+  forall p base : str, nonul p -> nonul base ->
+    exists r, relative_text p base = Ok r /\ relative_agrees r p base.
+Proof. exact relative_text_ok. Qed.
+Print Assumptions relative_equiv.
+
+(* never reads outside the NUL-terminated arguments; every loop ends within its fuel *)
+Theorem relative_reads_in_bounds :
+  forall p base : str, nonul p -> nonul base ->
+    zix_path_lexically_relative p base <> OOB /\ zix_path_lexically_relative p base <> NoFuel.
+Proof.
+  intros p base Np Nb. destruct (relative_fits_ok p base Np Nb) as [r [H _]]. rewrite H. split; discriminate.
+Qed.
+Print Assumptions relative_reads_in_bounds.
+
+(* never writes outside its result: the block holds the text, its NUL, and j untouched zero bytes
+   (j = 1 when only up-references are written, else 0) *)
+Theorem relative_result_fits :
+  forall p base : str, nonul p -> nonul base ->
+    exists r, zix_path_lexically_relative p base = Ok r
+      /\ match r with
+         | None => True
+         | Some buf => exists t j, nonul t /\ b_cells buf = (t ++ [0]) ++ repeat 0 j
+                                   /\ b_size buf = Z.of_nat (length t + 1 + j)
+         end.
+Proof. exact relative_fits_ok. Qed.
+Print Assumptions relative_result_fits.
+
+(* the repaired witnesses on the faithful model: 'a/' vs 'a/.' = ".", "" vs "a" = "..",
+   '//' vs '/a' = ".."; and non-trivial instances of every branch *)
 Theorem relative_fixed_witnesses :
   relative_text [97;47] [97;47;46] = Ok (Some [46]) /\
   relative_text [] [97] = Ok (Some [46;46]) /\
   relative_text [47;47] [47;97] = Ok (Some [46;46]).
 Proof. vm_compute. repeat split. Qed.
 Print Assumptions relative_fixed_witnesses.
+
+Example relative_example :
+  relative_text [47;97;47;98] [47;97;47;99;47;100] = Ok (Some [46;46;47;46;46;47;98]) /\
+  relative_text [97;47] [97;47;98] = Ok (Some [46;46;47]) /\
+  relative_text [47;97] [98] = Ok None /\
+  relative_text [97] [97;47;46;46;47;46;46] = Ok None /\
+  std_relative [97;47] [97;47;98] = Some [[46;46]; []].
+Proof. vm_compute. repeat split. Qed.
